@@ -419,17 +419,33 @@ func (w *World) AnnounceAgain(t *Tape) (tx *wire.MsgTx, conflictFree bool) {
 	}
 	tx = cands[t.Int(len(cands))]
 	conflictFree = true
-	for _, m := range pool {
-		if m == tx {
+	// rivals: every transaction the node has ever seen that is not on the
+	// best chain - announced ones and those of blocks that were reorganised
+	// away (the node puts them back into its pool) - spending one of its inputs.
+	// The node's pool would not take a transaction with such a rival, so it
+	// would not announce it either.
+	mine := map[wire.OutPoint]bool{}
+	for _, in := range tx.TxIn {
+		mine[in.PreviousOutPoint] = true
+	}
+	th := tx.TxHash()
+	w.Node.mu.Lock()
+	for h, m := range w.Node.allTx {
+		if h == th {
+			continue
+		}
+		if _, on := w.Node.txIdx[h]; on {
 			continue
 		}
 		for _, in := range m.TxIn {
-			for _, mine := range tx.TxIn {
-				if in.PreviousOutPoint == mine.PreviousOutPoint {
-					conflictFree = false
-				}
+			if mine[in.PreviousOutPoint] {
+				conflictFree = false
 			}
 		}
+	}
+	w.Node.mu.Unlock()
+	if !conflictFree {
+		return nil, false
 	}
 	w.AnnounceTx(tx)
 	w.Logf("announce again %s", describeTx(tx))
